@@ -1031,5 +1031,127 @@ def mon_C14(walk, d):
     return out
 
 
+# ---- state invariants evaluated on the implementation's snapshots -------------------------------------------------
+# The same clauses as Model/EngineWF.lean (proved there for every history of the model), evaluated here on what the
+# facade reports about the real engine.  Each monitor uses the clauses that belong to its property.
+
+def snap_state(line):
+    f, _ = resp_fields(line)
+    if "state" not in f:
+        return None
+    lst = lambda k: [int(x) for x in f.get(k, "").split("+") if x]
+    mp = lambda k: [(int(a), int(b)) for a, b in (x.split(":") for x in f.get(k, "").split("+") if x)]
+    ops = {}
+    for tok in line.split(" | ")[0].split(" "):
+        if tok.startswith("op="):
+            parts = tok[3:].split(":")
+            ops[int(parts[0])] = dict(kind=parts[1], pid=int(parts[2]), dup=parts[3] == "1", pubrel=parts[4] == "1", slow=int(parts[6]))
+    return dict(state=f["state"], ops=ops, opids=lst("ops"), userq=lst("userq"), resubq=lst("resubq"), highq=lst("highq"),
+                cur=None if f.get("cur") in (None, "none") else int(f["cur"]), alloc=mp("alloc"), ppub=mp("ppub"), pnon=mp("pnon"),
+                pwc=lst("pwcops"), timeouts=f.get("timeouts", ""), nextop=int(f.get("nextop", "0")), nextpid=int(f.get("nextpid", "1")),
+                rm=int(f["s.rm"]) if "s.rm" in f else None, slow=int(f.get("slow", "0")))
+
+
+def needs_id(kind):
+    return kind in ("subscribe", "unsubscribe", "publish1", "publish2")
+
+
+def snapshot_violations(s):
+    """[(clause, detail)] for one snapshot"""
+    out = []
+    ops = s["ops"]
+    alloc = dict(s["alloc"])
+    ppub_vals = [b for _, b in s["ppub"]]
+    pnon_vals = [b for _, b in s["pnon"]]
+    for pid, op in s["alloc"]:
+        if not (1 <= pid <= 65535):
+            out.append(("P1.range", f"reserved packet id {pid} is outside 1..65535"))
+        if op not in ops or ops[op]["pid"] != pid:
+            out.append(("P2.reserved-is-held", f"packet id {pid} is reserved for operation {op}, which is not tracked or does not carry it"))
+    if not (1 <= s["nextpid"] <= 65535):
+        out.append(("P1.range", f"next packet id {s['nextpid']} is outside 1..65535"))
+    for i, o in ops.items():
+        if o["pid"] != 0 and needs_id(o["kind"]) and alloc.get(o["pid"]) != i:
+            out.append(("P3.held-is-reserved", f"operation {i} carries packet id {o['pid']} but that id is {'reserved for ' + str(alloc[o['pid']]) if o['pid'] in alloc else 'not reserved'}"))
+        if o["pubrel"] and not o["dup"] and i not in ppub_vals:
+            out.append(("PR.pubrel-in-flight", f"operation {i} holds a PUBREL, is not a retransmission and is not in the pending-publish table"))
+    for pid, op in s["ppub"]:
+        if op not in ops or ops[op]["pid"] != pid or ops[op]["kind"] not in ("publish1", "publish2"):
+            out.append(("TP.entries", f"pending-publish entry {pid}:{op} does not name a tracked QoS 1/2 publish carrying that id"))
+    for pid, op in s["pnon"]:
+        if op not in ops or ops[op]["pid"] != pid or ops[op]["kind"] not in ("subscribe", "unsubscribe"):
+            out.append(("TN.entries", f"pending-subscribe entry {pid}:{op} does not name a tracked (un)subscribe carrying that id"))
+    for i in s["pwc"]:
+        if i in ops and needs_id(ops[i]["kind"]):
+            out.append(("WC.no-id", f"operation {i} ({ops[i]['kind']}) waits for a write completion only, although it needs an acknowledgement"))
+    located = set(s["userq"]) | set(s["resubq"]) | set(s["highq"]) | set(s["pwc"]) | set(ppub_vals) | set(pnon_vals)
+    if s["cur"] is not None:
+        located.add(s["cur"])
+    for i in ops:
+        if i not in located:
+            out.append(("LOC.tracked-is-located", f"operation {i} is tracked but sits in no queue, table or current slot"))
+    for i in s["highq"]:
+        if i in ops:
+            if ops[i]["kind"] in ("publish1", "publish2") and not ops[i]["pubrel"]:
+                out.append(("H2.high-publish-has-pubrel", f"publish {i} is in the high-priority queue without a PUBREL"))
+            if ops[i]["pubrel"] and i not in ppub_vals:
+                out.append(("PR2.high-pubrel-pending", f"PUBREL of operation {i} is queued although the operation is not pending"))
+    if s["state"] == "Disconnected":
+        if s["cur"] is not None or s["highq"] or s["ppub"] or s["pnon"] or s["pwc"] or s["timeouts"]:
+            out.append(("D1.disconnected-clean", "Disconnected with a current operation, high-priority work, pending tables or timeouts left"))
+    if s["state"] == "PendingConnack":
+        bad = [i for i in s["highq"] + s["pwc"] + ([s["cur"]] if s["cur"] is not None else []) if i in ops and ops[i]["kind"] != "connect"]
+        if bad or s["ppub"] or s["pnon"] or s["timeouts"]:
+            out.append(("H1.handshake-only-connect", f"during the handshake something other than the CONNECT is in flight: {bad} ppub={s['ppub']} pnon={s['pnon']}"))
+    for i in s["userq"] + s["resubq"] + s["highq"] + s["pwc"] + ([s["cur"]] if s["cur"] is not None else []):
+        if i >= s["nextop"]:
+            out.append(("QB.queued-exists-before", f"queued operation id {i} was never created (next id {s['nextop']})"))
+    if s["state"] == "Connected":
+        for name in ("userq", "resubq"):
+            q = s[name]
+            if any(a > b for a, b in zip(q, q[1:])):
+                out.append(("S.order", f"{name} is not in submission order while connected: {q}"))
+        if s["rm"] is not None:
+            if len(s["ppub"]) > s["rm"]:
+                out.append(("F.receive-maximum", f"{len(s['ppub'])} unacknowledged publishes with receive maximum {s['rm']}"))
+            c = s["cur"]
+            if c is not None and c in ops and ops[c]["kind"] in ("publish1", "publish2") and c not in ppub_vals and len(s["ppub"]) >= s["rm"]:
+                out.append(("F.receive-maximum", f"publish {c} is being written while {len(s['ppub'])} publishes are unacknowledged (receive maximum {s['rm']})"))
+        c = s["cur"]
+        if c is not None and c in ops and needs_id(ops[c]["kind"]) and ops[c]["pid"] == 0:
+            out.append(("C1.current-has-id", f"operation {c} is being written without a packet id"))
+    return out
+
+
+def wf_monitor(walk, prefixes):
+    """violations of the named clause families on every snapshot of the walk: (clause, detail, step)"""
+    out = []
+    seen = set()
+    for i, (o, note) in enumerate(zip(walk.out, walk.notes)):
+        if note.get("kind") != "snap":
+            continue
+        s = snap_state(o)
+        if s is None:
+            continue
+        for clause, detail in snapshot_violations(s):
+            if clause.split(".")[0] in prefixes and clause not in seen:
+                seen.add(clause)
+                out.append(("state-invariant:" + clause, detail, i))
+    return out
+
+
+WF_FAMILIES = {"C01": ("LOC", "TP", "TN", "WC", "QB"), "C06": ("P1", "P2", "P3"), "C04": ("PR", "PR2", "H2"),
+               "C07": ("H1", "D1"), "C09": ("F",), "C10": ("S",), "C16": ("C1",)}
+
+
+def with_wf(prop, fn):
+    def run(walk, d):
+        return list(fn(walk, d)) + wf_monitor(walk, WF_FAMILIES[prop])
+    return run
+
+
 MONITORS = {"C01": mon_C01, "C04": mon_C04, "C05": mon_C05, "C06": mon_C06, "C07": mon_C07, "C09": mon_C09, "C10": mon_C10,
             "C11": mon_C11, "C14": mon_C14, "C15": mon_C15, "C16": mon_C16, "C17": mon_C17, "C18": mon_C18}
+for _p in WF_FAMILIES:
+    if _p in MONITORS:
+        MONITORS[_p] = with_wf(_p, MONITORS[_p])
